@@ -23,6 +23,8 @@ func init() {
 		boundary := fs.Bool("boundary", false, "use 256-bit boundary amounts")
 		evm := fs.Bool("evm", false, "project contract storage/code")
 		scdir := fs.String("scenarios", "", "directory to save the scenarios to")
+		queries := fs.Int("queries", 0, "up to this many queries after every consensus call")
+		prestart := fs.Float64("prestart", 0, "probability of a restart after a commit")
 		_ = fs.Parse(args)
 		f, err := os.Create(*out)
 		if err != nil {
@@ -41,6 +43,7 @@ func init() {
 			p := appdrv.DefaultProfile()
 			p.Blocks, p.MaxTxs = *blocks, *maxtx
 			p.BusyFirstBlock = i%8 == 7
+			p.Queries, p.PRestart = *queries, *prestart
 			if *boundary {
 				g, na = appdrv.BoundaryFamily(s)
 				p.Boundary = true
